@@ -16,7 +16,7 @@ go test -vet=off -count=1 -run "$pat" $pkg >/tmp/sv-$$-1.log 2>&1; demo_clean=$?
 rm -f $dest
 git apply $d/patch.diff; applied=$?
 go build ./... >/dev/null 2>&1; built=$?
-go test -vet=off -count=1 ./... >/tmp/sv-$$-2.log 2>&1; suite=$?
+go test -vet=off -count=1 -p 4 ./... >/tmp/sv-$$-2.log 2>&1; suite=$?
 cp $d/demo_test.go $dest
 go test -vet=off -count=1 -run "$pat" $pkg >/tmp/sv-$$-3.log 2>&1; demo_patched=$?
 echo "{\"seed\":\"$d\",\"demo_unpatched_rc\":$demo_clean,\"patch_applies_rc\":$applied,\"build_rc\":$built,\"suite_with_patch_rc\":$suite,\"demo_patched_rc\":$demo_patched,\"demo\":\"$pat in $pkg\"}"
